@@ -70,34 +70,50 @@ def documentedRanges : List (String × String × Nat × Nat) :=
 
 /-! ## files on disk (C17) -/
 
-/-- a file system: path ↦ content -/
-abbrev FS := List (String × List Nat)
+/-- the paths a run touches inside its output location -/
+inductive Path where
+  | out                          -- the output file of `comp` and `min`
+  | counts                       -- `<dir>/kmers.counts`
+  | vectors                      -- `<dir>/kmers.vectors`
+  | temp (part chunk : Nat)      -- `<dir>/temp_kmers.part_<part>_chunk_<chunk>`
+  | other (n : Nat)              -- anything else that happens to be there
+deriving DecidableEq, Repr
 
-def FS.read (fs : FS) (p : String) : Option (List Nat) := (fs.find? fun e => e.1 == p).map (·.2)
+/-- a file system: path ↦ content (first binding wins) -/
+abbrev FS := List (Path × List Nat)
+
+def FS.read (fs : FS) (p : Path) : Option (List Nat) := (fs.find? fun e => e.1 == p).map (·.2)
 
 /-- create-or-truncate then write: what `File::create` + writes, and `OpenOptions … truncate(true)` +
-    `set_len` + a write to every byte, amount to -/
-def FS.write (fs : FS) (p : String) (content : List Nat) : FS := (p, content) :: fs.filter fun e => e.1 != p
+    `set_len` + a write to every byte of the mapping, amount to -/
+def FS.write (fs : FS) (p : Path) (content : List Nat) : FS := (p, content) :: fs.filter fun e => e.1 != p
 
-def FS.delete (fs : FS) (p : String) : FS := fs.filter fun e => e.1 != p
-
-def tempName (dir : String) (part chunk : Nat) : String := s!"{dir}/temp_kmers.part_{part}_chunk_{chunk}"
+def FS.delete (fs : FS) (p : Path) : FS := fs.filter fun e => e.1 != p
 
 /-- counting: every counted chunk dumps every partition (also empty ones) -/
-def countPhase (dir : String) (P C : Nat) (dump : Nat → Nat → List Nat) (fs : FS) : FS :=
-  (List.range C).foldl (fun fs c => (List.range P).foldl (fun fs p => fs.write (tempName dir p c) (dump p c)) fs) fs
+def countPhase (P C : Nat) (dump : Nat → Nat → List Nat) (fs : FS) : FS :=
+  (List.range C).foldl (fun fs c => (List.range P).foldl (fun fs p => fs.write (.temp p c) (dump p c)) fs) fs
 
 /-- merging reads exactly `part < P, chunk < C` and deletes what it read when asked to -/
-def mergeReads (dir : String) (P C : Nat) : List String :=
-  (List.range P).flatMap fun p => (List.range C).map fun c => tempName dir p c
+def mergeReads (P C : Nat) : List Path :=
+  (List.range P).flatMap fun p => (List.range C).map fun c => Path.temp p c
 
-def mergePhase (dir : String) (P C : Nat) (delete : Bool) (combine : List (Option (List Nat)) → List Nat) (fs : FS) : FS :=
-  let inputs := (mergeReads dir P C).map fs.read
-  let fs := fs.write s!"{dir}/kmers.counts" (combine inputs)
-  if delete then (mergeReads dir P C).foldl FS.delete fs else fs
+def mergePhase (P C : Nat) (delete : Bool) (combine : List (Option (List Nat)) → List Nat) (fs : FS) : FS :=
+  let inputs := (mergeReads P C).map fs.read
+  let fs := fs.write .counts (combine inputs)
+  if delete then (mergeReads P C).foldl FS.delete fs else fs
 
-/-- a whole `ctr` run -/
-def ctrRun (dir : String) (P C : Nat) (dump : Nat → Nat → List Nat) (combine : List (Option (List Nat)) → List Nat) (fs : FS) : FS :=
-  mergePhase dir P C true combine (countPhase dir P C dump fs)
+/-- a whole `ctr` run: count, then merge with deletion -/
+def ctrRun (P C : Nat) (dump : Nat → Nat → List Nat) (combine : List (Option (List Nat)) → List Nat) (fs : FS) : FS :=
+  mergePhase P C true combine (countPhase P C dump fs)
+
+/-- a `cov` run: the counting run, then the vectors file computed from the counts table it just wrote -/
+def covRun (P C : Nat) (dump : Nat → Nat → List Nat) (combine : List (Option (List Nat)) → List Nat)
+    (vectors : Option (List Nat) → List Nat) (fs : FS) : FS :=
+  let fs := ctrRun P C dump combine fs
+  fs.write .vectors (vectors (fs.read .counts))
+
+/-- `comp oligo`, `comp cgr`, `min`: one output file, created or truncated, then written in full -/
+def fileRun (content : List Nat) (fs : FS) : FS := fs.write .out content
 
 end KT
